@@ -815,6 +815,31 @@ func (c *Contract) mergeTemplate(t *Contract) {
 // `funcs REGEXP : template NAME` families for the functions (keys pkg::funcKey) that have no
 // contract of their own.
 func (cs *ContractSet) expandTemplates(funcKeys []string) error {
+	// templates may use templates (no cycles: a template is expanded once, in a few rounds)
+	for round := 0; round < 4; round++ {
+		for _, c := range cs.Templates {
+			if len(c.Uses) == 0 {
+				continue
+			}
+			ready := true
+			for _, u := range c.Uses {
+				t, ok := cs.Templates[u]
+				if !ok {
+					return fmt.Errorf("%s:%d: unknown template %s", c.File, c.Line, u)
+				}
+				if len(t.Uses) > 0 {
+					ready = false
+				}
+			}
+			if !ready {
+				continue
+			}
+			for _, u := range c.Uses {
+				c.mergeTemplate(cs.Templates[u])
+			}
+			c.Uses = nil
+		}
+	}
 	for _, c := range cs.Funcs {
 		for _, u := range c.Uses {
 			t, ok := cs.Templates[u]
